@@ -159,10 +159,38 @@ fn panic_message(p: Box<dyn std::any::Any + Send>) -> String {
     }
 }
 
+/// The state shared by all benchmarks of a run (action, timer, thread pool):
+/// what `Divan::run_action` creates once and reuses for every benchmark.
+pub struct Shared(SharedContext);
+
+impl Shared {
+    pub fn new(test_mode: bool, tsc_frequency: Option<u64>) -> Self {
+        let action = if test_mode { Action::Test } else { Action::Bench };
+        let timer = match tsc_frequency {
+            Some(f) => Timer::Tsc {
+                frequency: NonZeroU64::new(f).expect("non-zero frequency"),
+            },
+            None => Timer::Os,
+        };
+        Self(SharedContext { action, timer, thread_pool: ThreadPool::new() })
+    }
+}
+
 /// Runs `f` with a `Bencher` set up from `cfg` (the same way
 /// `Divan::run_bench_entry` and `benchmark::tests::test_bencher` do), then
 /// computes statistics as a benchmark run would.
 pub fn with_bencher(
+    cfg: &LoopCfg,
+    f: &mut dyn FnMut(Bencher),
+) -> LoopOutcome {
+    with_bencher_on(&Shared::new(cfg.test_mode, cfg.tsc_frequency), cfg, f)
+}
+
+/// Like [`with_bencher`], on an existing [`Shared`] (whose action and timer
+/// take precedence over `cfg.test_mode` / `cfg.tsc_frequency`), so that
+/// several benchmarks can run one after the other on one thread pool.
+pub fn with_bencher_on(
+    shared: &Shared,
     cfg: &LoopCfg,
     f: &mut dyn FnMut(Bencher),
 ) -> LoopOutcome {
@@ -191,19 +219,10 @@ pub fn with_bencher(
         ..BenchOptions::default()
     };
 
-    let action = if cfg.test_mode { Action::Test } else { Action::Bench };
-    let timer = match cfg.tsc_frequency {
-        Some(f) => Timer::Tsc {
-            frequency: NonZeroU64::new(f).expect("non-zero frequency"),
-        },
-        None => Timer::Os,
-    };
-
-    let shared_context =
-        SharedContext { action, timer, thread_pool: ThreadPool::new() };
+    let shared_context = &shared.0;
 
     let mut bench_context = BenchContext::new(
-        &shared_context,
+        shared_context,
         &options,
         NonZeroUsize::new(cfg.threads.max(1)).unwrap(),
     );
